@@ -343,6 +343,57 @@ impl Check for C13 {
                     self.agree(ctx, &shape, &text, None, "foreign-shape");
                 }
             }
+            "try_from-vs-text" if index % 50 == 7 => {
+                // a declared field next to a flattened catch-all that may hold an entry of the same
+                // name: the serializer is handed the same key twice, and every writer has to let the
+                // same one win
+                #[derive(serde::Serialize, Debug)]
+                struct Inner {
+                    level: i64,
+                    #[serde(flatten)]
+                    more: std::collections::BTreeMap<String, i64>,
+                }
+                #[derive(serde::Serialize, Debug)]
+                struct Job {
+                    retries: i64,
+                    name: String,
+                    inner: Inner,
+                    #[serde(flatten)]
+                    extra: std::collections::BTreeMap<String, i64>,
+                }
+                let mut pick = |rng: &mut Rng, names: &[&str]| -> std::collections::BTreeMap<String, i64> {
+                    let mut m = std::collections::BTreeMap::new();
+                    for n in names {
+                        if rng.coin() {
+                            m.insert(n.to_string(), 100 + rng.below(900) as i64);
+                        }
+                    }
+                    m
+                };
+                let job = Job { retries: rng.below(9) as i64, name: "n".into(), inner: Inner { level: rng.below(9) as i64, more: pick(rng, &["level", "z", "a"]) }, extra: pick(rng, &["retries", "timeout", "a"]) };
+                ctx.set_input(&format!("{job:?}"));
+                ctx.nontrivial(hash_bytes(format!("{job:?}").as_bytes()));
+                let r = guarded(|| (toml::Value::try_from(&job).map_err(|e| e.to_string()), toml::Table::try_from(&job).map_err(|e| e.to_string()), toml::to_string(&job).map_err(|e| e.to_string()), toml_edit::ser::to_string_pretty(&job).map_err(|e| e.to_string())));
+                match r {
+                    Err((loc, msg)) => ctx.violation(&format!("panic:{}", crate::short_loc(&loc)), format!("serializing a struct with a flattened map panicked at {loc}: {msg}")),
+                    Ok((Ok(a), Ok(t), Ok(text), Ok(pretty))) => {
+                        ctx.count("try_from/flattened-map-with-repeated-key");
+                        let parsed = toml::from_str::<toml::Value>(&text).map(|p| rt_of(&p)).map_err(|e| e.to_string());
+                        let parsed_pretty = toml::from_str::<toml::Value>(&pretty).map(|p| rt_of(&p)).map_err(|e| e.to_string());
+                        match (parsed, parsed_pretty) {
+                            (Ok(p), Ok(pp)) => {
+                                if let Some(d) = p.diff(&rt_of(&a), KeyOrder::Any).or_else(|| p.diff(&obs::toml_table_to_r(&t), KeyOrder::Any)) {
+                                    ctx.violation("try_from-differs-from-text:repeated-key", format!("Value::try_from gives {a:?}, Table::try_from {t:?}; to_string wrote {text:?}: {d}"));
+                                } else if let Some(d) = p.diff(&pp, KeyOrder::Any) {
+                                    ctx.violation("writers-differ:repeated-key", format!("toml::to_string wrote {text:?}, toml_edit::ser::to_string_pretty {pretty:?}: {d}"));
+                                }
+                            }
+                            (p, pp) => ctx.violation("serialized-text-not-readable", format!("{text:?} -> {:?}; {pretty:?} -> {:?}", p.err(), pp.err())),
+                        }
+                    }
+                    Ok((a, t, b, c)) => ctx.violation("try_from-and-to_string-disagree-on-success", format!("struct with a flattened map: Value::try_from {:?}, Table::try_from {:?}, to_string {:?}, to_string_pretty {:?}", a.map(|_| "ok"), t.map(|_| "ok"), b.map(|_| "ok"), c.map(|_| "ok"))),
+                }
+            }
             "try_from-vs-text" => {
                 let shape = gdyn::gen_root_shape_wrapped(rng);
                 let v = gdyn::gen_value(rng, &shape);
